@@ -47,7 +47,9 @@ SEARCH_N = 60
 SHARD = 20
 DRIVER_TIMEOUT = 1500
 COQ_FILES = ["theories/C12/Props.v", "theories/C12/Link.v"]
-RULE = ("round 7 adds: error histories (WRONGTYPE, non-numeric increments, redis.Nil, NOSCRIPT, dead contexts, pipelines with a "
+RULE = ("round 8 adds: BLPopWithTimeout on an empty list (blocks 1 s = the caller's timeout, redis.Nil; wall time vs raw in 2 s "
+        "buckets), TTL streams (SetNX/SetNXEx on existing persistent/expiring keys, SetEx, Expire, Persist; value and TTL of the key "
+        "compared on the servers after every such step, in every history); round 7 adds: error histories (WRONGTYPE, non-numeric increments, redis.Nil, NOSCRIPT, dead contexts, pipelines with a "
         "failing command, hang-up peers; context and plain forms; node and cluster clients; kv) in a driver process with the "
         "Prometheus agent ENABLED; round 6 adds: kv shard-fault streams (2-4 shards behind switchable proxies; one shard unreachable; multi-key Del of "
         "3-6 keys in random order against the twin's per-key DELs of the reachable keys; shard back up); round 5 adds: breaker phases against peers that accept, read the request and hang up (bare io.EOF) / reset / never answer "
@@ -685,6 +687,56 @@ def _fixed_round7(rng):
     return out + [o]
 
 
+# ---- round 8: arguments that matter on the EMPTY path only; no-op writes must leave the TTL alone ----
+def _blocking_empty(rng, tier):
+    """BLPopWithTimeout(Ctx) on an absent / emptied list: blocks for the CALLER's timeout (1 s, go-redis' minimum, not the
+    5 s package default) and ends in redis.Nil; wall time compared with raw BLPop(timeout) in 2 s buckets"""
+    ops = [{"m": "#bopen", "slot": 0, "form": "ctx", "a": []},
+           {"m": "BLPopWithTimeoutCtx", "slot": 0, "form": "ctx", "block": True, "a": [10 ** 9, "nolist"]},
+           {"m": "RPushCtx", "form": "ctx", "a": ["l0", ["a"]]},
+           {"m": "BLPopWithTimeoutCtx", "slot": 0, "form": "plain", "block": True, "a": [10 ** 9, "l0"]},    # pops "a" at once
+           {"m": "BLPopWithTimeoutCtx", "slot": 0, "form": "plain", "block": True, "a": [10 ** 9, "l0"]}]    # now empty
+    if tier not in ("quick", "search"):
+        ops.append({"m": rng.choice(["BLPopCtx", "BLPopExCtx"]), "slot": 0, "form": "ctx", "block": True, "a": ["nolist"]})   # 5 s default
+    return {"kind": "diff", "n": 1, "seed": rng.randrange(1 << 16), "ops": ops, "blocking_empty": True}
+
+
+def _ttl(rng, kv):
+    """writes that must be no-ops on an existing key (SetNX / SetNXEx on a persistent key or one with another TTL) and
+    writes that (re)set or drop the TTL; value and TTL of the key are compared on the servers after every such step"""
+    ops = []
+    put = lambda m, a: ops.append({"m": m, "form": rng.choice(["ctx", "plain"]), "a": a})
+    for k in ("s0", "s1", "s2", "n0"):
+        first = rng.choice(["SetCtx", "SetExCtx", "none"])
+        if first == "SetCtx":
+            put("SetCtx", [k, "v0"])
+        elif first == "SetExCtx":
+            put("SetExCtx", [k, "v0", rng.choice([50, 100])])
+        for _ in range(rng.randint(4, 7)):
+            m = rng.choice(["SetNXExCtx", "SetNXExCtx", "SetNXCtx", "SetExCtx", "ExpireCtx", "PersistCtx", "TTLCtx", "GetCtx", "#ff", "DelCtx"])
+            if m == "#ff":
+                ops.append({"m": "#ff", "form": "ctx", "a": [rng.randint(1, 4)]})
+            elif m == "SetNXExCtx":
+                put(m, [k, "v%d" % rng.randrange(9), rng.choice([5, 7, 300])])
+            elif m == "SetNXCtx":
+                put(m, [k, "v%d" % rng.randrange(9)])
+            elif m == "SetExCtx":
+                put(m, [k, "v%d" % rng.randrange(9), rng.choice([5, 20, 100])])
+            elif m == "ExpireCtx":
+                put(m, [k, rng.choice([3, 60])])
+            elif m == "DelCtx":
+                put(m, [[k]])
+            else:
+                put(m, [k])
+    if kv:
+        return {"kind": "kv", "seed": rng.randrange(1 << 16), "weights": [100, 100, 50], "ops": ops, "ttl": True}
+    return {"kind": "diff", "n": 1, "seed": rng.randrange(1 << 16), "ops": ops, "ttl": True}
+
+
+def _fixed_round8(rng, tier):
+    return [_blocking_empty(rng, tier), _ttl(rng, False), _ttl(rng, True), _ttl(rng, True)]
+
+
 def _fixed_round4(rng):
     """pass x {node, cluster} (and a TLS combination) are in every run, for the wrapper and for the sharded store"""
     out = [_diff(rng, _opts(rng, False, True, False), 30, blocking=True), _diff(rng, _opts(rng, True, True, False), 30, blocking=True),
@@ -701,7 +753,7 @@ def generate(rng, tier, n):
     nb = 1 if tier in ("quick", "search") else max(2, n // 200)
     fixed = []
     for k in range(nb):
-        fixed += [_breaker(rng), _dead(rng, False), _dead(rng, True)] + [_sha(rng) for _ in range(4)] + _fixed_round4(rng) + _fixed_round5(rng, tier, k == 0) + (_fixed_round7(rng) if k == 0 else [])
+        fixed += [_breaker(rng), _dead(rng, False), _dead(rng, True)] + [_sha(rng) for _ in range(4)] + _fixed_round4(rng) + _fixed_round5(rng, tier, k == 0) + (_fixed_round7(rng) + _fixed_round8(rng, tier) if k == 0 else [_ttl(rng, False), _ttl(rng, True)])
     cases.extend(fixed[:n])
     while len(cases) < n:
         x = rng.random()
@@ -728,6 +780,7 @@ def search(rng, problems):
     cases.append(_breaker(rng))
     cases += _fixed_round5(rng, "search")
     cases += _fixed_round7(rng)
+    cases += _fixed_round8(rng, "search")
     cases += [_dead(rng, False), _dead(rng, True), _sha(rng), _sha(rng)]
     cases += [_multi(rng) for _ in range(6)]
     cases += [_with_restarts(rng, {"kind": "kv", "seed": rng.randrange(1 << 16), "weights": [100, 100, 50],
@@ -979,6 +1032,10 @@ def bucket(case, obs):
         out.append("stream:shard-fault")
     if case.get("metrics"):
         out.append("stream:metrics-enabled")
+    if case.get("ttl"):
+        out.append("stream:ttl-noop-writes")
+    if case.get("blocking_empty"):
+        out += ["blocking-empty:" + st["xw"] for st in obs.get("steps", []) if st.get("xw", "").startswith("blocked~")]
     for op, st in zip(case["ops"], obs.get("steps", [])):
         if st.get("downpos"):
             dp, nk = st["downpos"], st["nkeys"]
